@@ -30,6 +30,8 @@ Require Import V.Proofs.RingStuckForever.
 Require Import V.Proofs.RingSweepLog.
 Require Import V.Oracle.C07UOracle.
 Require Import V.Proofs.C07UOracleProofs.
+Require Import V.Proofs.C06ConcOracle.
+Require Import V.Proofs.C07CrashOracle.
 Open Scope Z_scope.
 
 (* every configuration reachable under any schedule (positions below 2^62) satisfies the invariant *)
@@ -252,6 +254,26 @@ Theorem C07_after_log : forall lo cfg, Inv lo cfg -> LogInv cfg -> cons_idle (g_
     log cfg = map tag2 (delivered (g_cons cfg)) ++ tags_of swept ++ tags_of suffix.
 Proof. exact after_unblock_log. Qed.
 Print Assumptions C07_after_log.
+
+(* the whole-run oracle `holds_crash`, scheduled phase, for every run of the thread model with arbitrary crash points: the
+   prelude is accepted by the FIFO interpreter, the positions along the trace are ordered, the claims read off the trace give
+   a list of committed commands, and what the consumer thread delivered is a prefix, in position order, of the prelude's
+   pending commands followed by the committed ones.  (The remaining conjuncts of holds_crash concern the sequential epilogue:
+   each unblock() there satisfies unblock_ok by C07_oracle_unblock, each read after a successful unblock makes progress by
+   C07_progress; the walk as a whole is not proved, see docs/reports/C07.md.) *)
+Theorem C07_oracle_crash_sched : forall m cp p0 hc0 c0 pre limits progs sched stops post,
+  seq_domain cp p0 hc0 c0 pre -> Forall (Forall wreq_ok) progs -> NoDup (map fst (concat progs)) ->
+  p0 + 2 * cp * (Z.of_nat (length pre) + Z.of_nat (length (concat progs)) + 1) <= two62 ->
+  let obs := run_conc m (init cp p0 hc0 c0) pre limits progs sched stops post in
+  let o1 := fst (fst (fst obs)) in let tr := snd (fst (fst obs)) in let res := snd (fst obs) in
+  (exists l rest, res = TCons l :: rest) ->
+  exists d0 cm0 s1 cons_r rest,
+    res = cons_r :: rest /\ delivered_by cons_r = Some d0 /\
+    committed_cmds progs (claims_of cp tr) = Some cm0 /\ check_to cp (mkOst [] p0 p0 []) pre o1 = Some s1 /\
+    positions_ok cp tr (fst (last_ht p0 o1)) (snd (last_ht p0 o1)) = true /\
+    is_prefix d0 (map cmsg (o_q s1) ++ cm0) = true.
+Proof. exact oracle_crash_sched. Qed.
+Print Assumptions C07_oracle_crash_sched.
 
 (* part (1) of the trace oracle of the uconc cases (Oracle/C07UOracle.v, `confirm_ok`: the padding store is justified by
    what that unblock() call itself read) is true of the model's unblock in every interleaving: `reads_inv ci u rs` relates the
